@@ -663,6 +663,8 @@ func (s *Server) read(ch receiver) {
 			s.stopLocked(err)
 			s.mu.Unlock()
 			return
+		} else if s.ch == nil { // stopped while receiving; discard
+			s.log("Discarding %d bytes received after stop", len(bits))
 		} else if derr != nil { // parse failure; report and continue
 			s.pushErrorLocked(derr)
 		} else if len(in) == 0 {
